@@ -15,3 +15,5 @@ pub(crate) mod tiny;
 pub(crate) mod coll;
 #[cfg(kani)]
 pub(crate) mod coll2;
+#[cfg(kani)]
+pub(crate) mod coll3;
